@@ -153,6 +153,22 @@ def empty_seq(ex, st, kind):
 
 
 def seq_concat(ex, st, a, b, node):
+    """[c0, ...] + seq  /  seq + [c0, ...]  for integer sequences."""
+    used('list + list -> concatenated sequence')
+    k = z3.Int('k!c')
+    if isinstance(a, VList) and isinstance(b, VSeq) and b.tag == 'int' and all(is_intsort(x) for x in a.items):
+        arr = ex.fresh('cat', b.arr.sort())
+        m = len(a.items)
+        for i, x in enumerate(a.items):
+            st.assume(arr[i] == Z(x))
+        st.assume(z3.ForAll([k], z3.Implies(k >= m, arr[k] == b.arr[k - m]), patterns=[arr[k]]))
+        return st.alloc(VSeq(arr, b.n + m, b.wrap, 'int'))
+    if isinstance(b, VList) and isinstance(a, VSeq) and a.tag == 'int' and all(is_intsort(x) for x in b.items):
+        arr = ex.fresh('cat', a.arr.sort())
+        st.assume(z3.ForAll([k], z3.Implies(k < a.n, arr[k] == a.arr[k]), patterns=[arr[k]]))
+        for i, x in enumerate(b.items):
+            st.assume(arr[a.n + i] == Z(x))
+        return st.alloc(VSeq(arr, a.n + len(b.items), a.wrap, 'int'))
     raise Unsupported('list concatenation of symbolic sequences')
 
 
